@@ -80,6 +80,27 @@ def _wrong_root(env):
     return env.parsers["lxml"].parse(mutate.linearize(tree), None)
 
 
+def _qnames_doc(env, prefix_uri_pairs, handler="native"):
+    """QNames document whose ROOT carries a QName-typed attribute, written with the given prefix bindings."""
+    decl = dict(prefix_uri_pairs)
+    inv = {u: p for p, u in decl.items()}
+    root = mutate.Node("{urn:a}qn", {"qa": inv["urn:b"] + ":y"}, None, None, [mutate.Node("{urn:a}q", {}, inv["urn:a"] + ":x")], [(p, u) for p, u in decl.items()])
+    return env.parsers[handler].parse(mutate.linearize(root), QNames)
+
+
+def _wother_doc(env, child_qname):
+    from harness.models import WOther
+
+    root = mutate.Node("{urn:a}w", {}, None, None, [mutate.Node(child_qname, {}, "t")])
+    return env.parsers["native"].parse(mutate.linearize(root), WOther)
+
+
+def _foreign_xsi(env):
+    """A document for UnionModels whose item carries an xsi:type naming a class of an unrelated family."""
+    root = mutate.Node("um", {}, None, None, [mutate.Node("item", {"{%s}type" % seam.XSI: "p:derived"}, None, None, [mutate.Node("value", {}, "7")], [("p", "urn:a")])])
+    return env.lenient.parse(mutate.linearize(root), UnionModels)
+
+
 OPS = [
     ("ser ParentA", lambda e: _ser(e, ParentA(item=Child(v=1, a="q"), items=[Child(v=2)], other=4))),
     ("ser ParentB", lambda e: _ser(e, ParentB(item=Child(v=9)), "lxml")),
@@ -95,6 +116,11 @@ OPS = [
     ("FAIL parse unknown root without target class", _wrong_root),
     ("encode+decode Lists", lambda e: e.dec.decode(e.enc.encode(Lists(ints=[1, 2], strs=["a"], toks=[3], atoks=["p"])), Lists)),
     ("FAIL decode Holder from a bad dictionary", lambda e: e.dec.decode({"b": {"x": "oops", "nope": 1}}, Holder)),
+    ("parse QNames, prefixes t=urn:a u=urn:b", lambda e: _qnames_doc(e, [("t", "urn:a"), ("u", "urn:b")])),
+    ("parse QNames, prefixes t=urn:b u=urn:a (lxml)", lambda e: _qnames_doc(e, [("t", "urn:b"), ("u", "urn:a")], "lxml")),
+    ("parse ##other wildcard with {urn:c}item", lambda e: _wother_doc(e, "{urn:c}item")),
+    ("FAIL parse ##other wildcard with {urn:a}item (own namespace)", lambda e: _wother_doc(e, "{urn:a}item")),
+    ("parse UnionModels item with an xsi:type of an unrelated family", _foreign_xsi),
 ]
 # operations that build metadata of the namespace-less class Child under different inherited namespaces
 _CHILD_NS_GROUP = {0: "urn:a", 2: "urn:a", 1: "urn:b", 3: "urn:b", 4: None}
